@@ -1188,6 +1188,36 @@ func runC03(c *Ctx) {
 			}
 			c.check(isSyscallCount(r.Results[0]), fn, "return n", r.Pos(), "returns the number of events the kernel reported", "the count returned after dispatching is not the kernel's event count")
 		}
+		// the batch loop reads events[i] only for i below the kernel's count: the entry after the last one is left over
+		// from an earlier wait and names a slot that may be gone
+		evF := p.TryField("internal", "poller", "events")
+		nBatch := 0
+		for _, g := range []*ssa.Function{p.Method("internal", "poller", "Poll"), fn} {
+			eachInstr(g, func(in ssa.Instruction) {
+				ia, ok := in.(*ssa.IndexAddr)
+				if !ok || evF == nil || !loadOfField(ia.X, evF) || isConstInt(ia.Index, 0) {
+					return
+				}
+				nBatch++
+				okB := false
+				for _, l := range guardsOf(in.Block()) {
+					op, x, y, isCmp := l.cmp()
+					if isCmp && op == token.LSS && stripConv(x) == stripConv(ia.Index) && isSyscallCount(y) {
+						okB = true
+					}
+					if isCmp && op == token.GTR && stripConv(y) == stripConv(ia.Index) && isSyscallCount(x) {
+						okB = true
+					}
+				}
+				c.check(okB, g, "batch bound", in.Pos(), "events[i] is read only for i < n", "the poll loop reads an entry of the event array that the last wait did not fill (index not strictly below the kernel's count): a stale entry of an earlier batch is dispatched to a slot that may have been closed or reused")
+			})
+			if g == fn {
+				break
+			}
+		}
+		if nBatch == 0 {
+			c.Notes = append(c.Notes, "no indexed read of poller.events found (the batch is walked another way)")
+		}
 	}
 }
 
